@@ -60,8 +60,9 @@ class Conn(object):
             latency = net.latency(self)
         t = max(sim.now + latency, self.last_s2c)
         pieces = net.chunk(data, cuts)
-        for p in pieces:
-            t += net.inter_chunk_gap()
+        for i, p in enumerate(pieces):
+            if i < 64:
+                t += net.inter_chunk_gap()
             self.last_s2c = t
             if self.blackhole:
                 self.held_s2c.append(p)
@@ -397,9 +398,22 @@ class SimNet(object):
             mode = r.choice(('whole', 'random', 'boundary', 'tiny'))
         if n <= 1 or mode == 'whole':
             return [data]
-        if mode == 'bytes1' or (mode == 'tiny' and n <= 64):
+        if (mode == 'bytes1' and n <= 3000) or (mode == 'tiny' and n <= 64):
             self.count('one_byte_chunks')
             return [data[i:i + 1] for i in range(n)]
+        if mode == 'bytes1':
+            # long payload: single bytes for the first and last stretch, random cuts in between
+            self.count('one_byte_chunks')
+            head = [data[i:i + 1] for i in range(0, 40)]
+            tail = [data[i:i + 1] for i in range(n - 12, n)]
+            mid = data[40:n - 12]
+            pts = sorted(set(r.randrange(1, len(mid)) for _ in range(r.randrange(1, 30))))
+            pieces, prev = [], 0
+            for p_ in pts:
+                pieces.append(mid[prev:p_])
+                prev = p_
+            pieces.append(mid[prev:])
+            return head + pieces + tail
         points = set()
         if mode in ('boundary', 'tiny') and cuts:
             for c in cuts:
